@@ -10,7 +10,10 @@
    `sspec` (Check.c08_legal / c08_realtime, the very functions the C08 check applies to implementation histories):
      - InPlace: some interleaving has NO linearization (`k1_in_place_refuted`; the witness is the history the harness
        reproduced on the real code: Read -> expired just now, then Read -> not found);
-     - Swap: every interleaving has one (`k1_swap_linearizable`).
+     - Swap: every interleaving has one (`k1_swap_linearizable`; also with a Delete racing all three, 420 interleavings:
+       `k1_swap_linearizable_with_delete`; with a second ExpireAll or a second cleanup cycle, locals per thread, 210
+       each: `k1_swap_linearizable_two`).
+   D16 (cleanup deleting by key vs. CompareAndDelete, racing a Write) is decided the same way at the end of the file.
    The domain is finite (all merges of three fixed micro-step sequences), so the proofs are by computation.  The shape
    of the source is tied in TieCleanup.tie_delete_expired_sync, TieAccessors.tie_sync_delete_entry and
    TieBackend.tie_expire_all_sync / tie_sync_expire_entry. *)
@@ -21,42 +24,61 @@ Record mslot := mkM { m_ptr : N; m_ent : sent }.
 Inductive mstep :=
 | MWrite (k : key) (v : val) (e : time)     (* Store(key, &TraitEntry{...}): a new object *)
 | MRead (k : key) (now : time)              (* Load + PrepareRead *)
+| MDelete (k : key)                         (* LoadAndDelete(key) *)
 | MExpireInPlace (stamp : time)             (* Range: atomic.StoreInt64(&entry.E, stamp) *)
 | MExpireLoad                               (* Range hands out the entry *)
 | MExpireSwap (stamp : time)                (* CompareAndSwap(key, thatEntry, expired copy) *)
 | MScanLoad (boundary : time)               (* Range hands out the entry; E is loaded and judged *)
-| MScanDelete.                              (* CompareAndDelete(key, the entry judged) if judged long-expired *)
+| MScanDelete                               (* CompareAndDelete(key, the entry judged) if judged long-expired *)
+| MScanDeleteByKey.                         (* Delete(key) if judged long-expired: the code before fix D16 *)
 
 Record mstate := mkMS {
   ms_slot : option mslot;
   ms_next : N;                               (* next fresh address *)
-  ms_judged : option (N * bool);             (* the cleanup's local: (address it looked at, verdict) *)
-  ms_seen : option N;                        (* ExpireAll's local: the address Range handed out *)
+  ms_judged : list (nat * (N * bool));       (* per cleanup thread: (address it looked at, verdict) *)
+  ms_seen : list (nat * N);                  (* per ExpireAll thread: the address Range handed out *)
 }.
 
-Definition m_step (s : mstate) (x : mstep) : mstate * sres :=
+Definition lget {A} (t : nat) (l : list (nat * A)) : option A :=
+  match List.find (fun p => Nat.eqb p.1 t) l with Some p => Some p.2 | None => None end.
+Definition ldel {A} (t : nat) (l : list (nat * A)) : list (nat * A) := List.filter (fun p => negb (Nat.eqb p.1 t)) l.
+Definition lset {A} (t : nat) (o : option A) (l : list (nat * A)) : list (nat * A) :=
+  match o with Some x => (t, x) :: ldel t l | None => ldel t l end.
+
+Definition m_step (thr : nat) (s : mstate) (x : mstep) : mstate * sres :=
   match x with
   | MWrite k v e => (mkMS (Some (mkM (ms_next s) (mkS k v e))) (ms_next s + 1)%N (ms_judged s) (ms_seen s), XUnit)
   | MRead k now => (s, read_res k now (m_ent <$> ms_slot s))
+  | MDelete k =>
+      if holds_key k (m_ent <$> ms_slot s)
+      then (mkMS None (ms_next s) (ms_judged s) (ms_seen s), XUnit)
+      else (s, XNotFound)
   | MExpireInPlace st =>
       (mkMS ((fun m => mkM (m_ptr m) (mkS (sK (m_ent m)) (sV (m_ent m)) st)) <$> ms_slot s) (ms_next s) (ms_judged s) (ms_seen s), XUnit)
-  | MExpireLoad => (mkMS (ms_slot s) (ms_next s) (ms_judged s) (m_ptr <$> ms_slot s), XUnit)
+  | MExpireLoad => (mkMS (ms_slot s) (ms_next s) (ms_judged s) (lset thr (m_ptr <$> ms_slot s) (ms_seen s)), XUnit)
   | MExpireSwap st =>
-      (match ms_seen s, ms_slot s with
+      (match lget thr (ms_seen s), ms_slot s with
        | Some p, Some m =>
            if (m_ptr m =? p)%N
-           then mkMS (Some (mkM (ms_next s) (mkS (sK (m_ent m)) (sV (m_ent m)) st))) (ms_next s + 1)%N (ms_judged s) None
-           else mkMS (ms_slot s) (ms_next s) (ms_judged s) None
-       | _, _ => mkMS (ms_slot s) (ms_next s) (ms_judged s) None
+           then mkMS (Some (mkM (ms_next s) (mkS (sK (m_ent m)) (sV (m_ent m)) st))) (ms_next s + 1)%N (ms_judged s) (ldel thr (ms_seen s))
+           else mkMS (ms_slot s) (ms_next s) (ms_judged s) (ldel thr (ms_seen s))
+       | _, _ => mkMS (ms_slot s) (ms_next s) (ms_judged s) (ldel thr (ms_seen s))
        end, XUnit)
   | MScanLoad b =>
       (mkMS (ms_slot s) (ms_next s)
-            (match ms_slot s with Some m => Some (m_ptr m, s_long_expired b (m_ent m)) | None => None end) (ms_seen s), XUnit)
+            (lset thr (match ms_slot s with Some m => Some (m_ptr m, s_long_expired b (m_ent m)) | None => None end) (ms_judged s))
+            (ms_seen s), XUnit)
   | MScanDelete =>
-      (match ms_judged s, ms_slot s with
+      (match lget thr (ms_judged s), ms_slot s with
        | Some (p, true), Some m =>
-           if (m_ptr m =? p)%N then mkMS None (ms_next s) None (ms_seen s) else mkMS (ms_slot s) (ms_next s) None (ms_seen s)
-       | _, _ => mkMS (ms_slot s) (ms_next s) None (ms_seen s)
+           if (m_ptr m =? p)%N then mkMS None (ms_next s) (ldel thr (ms_judged s)) (ms_seen s)
+           else mkMS (ms_slot s) (ms_next s) (ldel thr (ms_judged s)) (ms_seen s)
+       | _, _ => mkMS (ms_slot s) (ms_next s) (ldel thr (ms_judged s)) (ms_seen s)
+       end, XUnit)
+  | MScanDeleteByKey =>
+      (match lget thr (ms_judged s) with
+       | Some (_, true) => mkMS None (ms_next s) (ldel thr (ms_judged s)) (ms_seen s)
+       | _ => mkMS (ms_slot s) (ms_next s) (ldel thr (ms_judged s)) (ms_seen s)
        end, XUnit)
   end.
 
@@ -98,7 +120,7 @@ Fixpoint exec (s : mstate) (t : Z) (pend : list pending) (sched : list tagged) :
   match sched with
   | [] => ([], s, t)
   | x :: r =>
-      let '(s', res) := m_step s (tg_step x) in
+      let '(s', res) := m_step (tg_thr x) s (tg_step x) in
       let pend1 := if tg_first x then mkP (tg_thr x) (tg_idx x) t :: pend else pend in
       let call := match List.find (fun p => Nat.eqb (p_thr p) (tg_thr x) && Nat.eqb (p_idx p) (tg_idx x)) pend1 with
                   | Some p => p_call p | None => t end in
@@ -120,13 +142,13 @@ Definition t_expire (v : variant) : list mop :=
 Definition t_write : list mop := [mkMop (SWrite k1_key 9 (k1_now + hour)) [MWrite k1_key 9 (k1_now + hour)]].
 
 Definition m_init : mstate :=
-  (m_step (mkMS None 1%N None None) (MWrite k1_key 5 (k1_now - 2 * hour))).1.
+  (m_step 9 (mkMS None 1%N [] []) (MWrite k1_key 5 (k1_now - 2 * hour))).1.
 
 (* the history of one interleaving: the initial Write, the concurrent part, a final Read *)
 Definition history_of (sched : list tagged) : list c08op :=
   let '(h, s, t) := exec m_init 10 [] sched in
   mkOp8 1 2 (SWrite k1_key 5 (k1_now - 2 * hour)) XUnit :: h ++
-  [mkOp8 (t + 2) (t + 3) (SRead k1_key (k1_now + 2)) (m_step s (MRead k1_key (k1_now + 2))).2].
+  [mkOp8 (t + 2) (t + 3) (SRead k1_key (k1_now + 2)) (m_step 9 s (MRead k1_key (k1_now + 2))).2].
 
 Definition linearizable (h : list c08op) : bool :=
   existsb (fun l => c08_realtime l && c08_legal [None] l) (permutations h).
@@ -176,4 +198,42 @@ Proof. repeat split; vm_compute; reflexivity. Qed.
 Example k1_in_place_census :
   length (List.filter (fun sched => negb (linearizable (history_of sched))) (scheds2 InPlace)) = 1%nat /\
   length (scheds2 InPlace) = 6%nat.
+Proof. split; vm_compute; reflexivity. Qed.
+
+(* ... and with a Delete racing all three: 420 interleavings *)
+Definition t_delete : list mop := [mkMop (SDelete k1_key) [MDelete k1_key]].
+Definition scheds4 (v : variant) : list (list tagged) :=
+  flat_map (interleave (tag_thread 3 0 t_delete)) (scheds3 v).
+
+Theorem k1_swap_linearizable_with_delete :
+  forallb (fun sched => linearizable (history_of sched)) (scheds4 Swap) = true /\ length (scheds4 Swap) = 420%nat.
+Proof. split; vm_compute; reflexivity. Qed.
+
+(* ... with a second ExpireAll, resp. a second cleanup cycle (per-thread locals): 210 interleavings each *)
+Definition t_expire2 : list mop := [mkMop (SExpire (k1_now + 5)) [MExpireLoad; MExpireSwap (k1_now + 5)]].
+Definition scheds_two_expire : list (list tagged) := flat_map (interleave (tag_thread 4 0 t_expire2)) (scheds2 Swap).
+Definition scheds_two_cleanup : list (list tagged) := flat_map (interleave (tag_thread 5 0 t_cleanup)) (scheds2 Swap).
+
+Theorem k1_swap_linearizable_two :
+  forallb (fun sched => linearizable (history_of sched)) scheds_two_expire = true /\
+  forallb (fun sched => linearizable (history_of sched)) scheds_two_cleanup = true /\
+  (length scheds_two_expire = 210 /\ length scheds_two_cleanup = 210)%nat.
+Proof. repeat split; vm_compute; reflexivity. Qed.
+
+(* ---- D16, the same way: the cleanup removing BY KEY what it judged (the code before fix 0d54a0a) loses a fresh entry a
+   concurrent Write stored in between; removing by CompareAndDelete does not ---- *)
+Definition t_cleanup_by (by_key : bool) : list mop :=
+  [mkMop (SDelExp (k1_now - hour)) [MScanLoad (k1_now - hour); if by_key then MScanDeleteByKey else MScanDelete]].
+
+Definition scheds_d16 (by_key : bool) : list (list tagged) :=
+  interleave (tag_thread 0 0 (t_cleanup_by by_key)) (tag_thread 2 0 t_write).
+
+Theorem d16_by_key_refuted :
+  existsb (fun sched => negb (linearizable (history_of sched))) (scheds_d16 true) = true /\
+  (* the failing history: the completed Write of a fresh value is followed by a Read that finds nothing *)
+  In [XUnit; XUnit; XUnit; XNotFound] (map (fun sched => map o_res (history_of sched)) (scheds_d16 true)).
+Proof. split; [vm_compute; reflexivity|vm_compute; tauto]. Qed.
+
+Theorem d16_compare_and_delete_linearizable :
+  forallb (fun sched => linearizable (history_of sched)) (scheds_d16 false) = true /\ length (scheds_d16 false) = 3%nat.
 Proof. split; vm_compute; reflexivity. Qed.
